@@ -18,7 +18,7 @@ import lib
 
 ACTIONS = ("Use", "Borrow", "Mut", "SetAttr", "Finish")
 MUTATORS = ["append", "extend", "insert", "pop", "popuse", "remove", "clear", "sort", "reverse", "setitem",
-            "setalias", "delitem", "iadd", "imul1", "imul2"]
+            "setalias", "delitem", "iadd", "imul1", "imul2", "reinit"]
 
 
 def emit_cases(ctx, cfg, simulate=0, depth=None):
@@ -77,7 +77,7 @@ def compile_all(ctx, cases, budget_s):
     out = [None] * len(cases)
     order = list(range(len(cases)))
     random.Random(ctx.seed).shuffle(order)
-    head = order[: max(200, len(order) // 10)]
+    head = order[: max(300, len(order) // 20)]
     t0 = time.time()
     go(head)
     rate = len(head) / max(time.time() - t0, 1e-3)
@@ -92,39 +92,49 @@ def compile_all(ctx, cases, budget_s):
     return [cases[i] for i in done], [out[i] for i in done]
 
 
+def op_at(c, k):
+    return c["prog"][k - 1]["op"] if 0 < k <= len(c["prog"]) else "finish"
+
+
 def judge(c, r):
-    """-> None or (key, what)"""
-    spec = c["verdict"]
-    st = r["status"]
+    """-> None or (key, what).  Keys name the mechanism, not the body:
+    unenforced:<reason>:<statement kind>:<origin>  the specification's error is not raised (or only later)
+    spurious:<reason>:<statement kind>:<origin>    /repo raises an ownership error the specification does not
+                                                   have (or raises it earlier)
+    crash:<exception class>:... / invalid:...      neither a Guppy error nor a valid HUGR"""
+    spec, st = c["verdict"], r["status"]
     where = f"{c['ty']}/{c['origin']}"
+    say = lambda k: f"raised by statement {k} of the body ({op_at(c, k)})" if k else "reported when the function returns"
     if st in ("crash", "machinery", "syntax"):
         cls = r.get("error", {}).get("class", "?")
-        return (f"crash:{cls}:{c['reason']}:{last_op(c)}",
+        return (f"crash:{cls}:{op_at(c, r.get('impl_at') or 0)}:{c['origin']}",
                 f"body for {where} does not end in a Guppy error or a HUGR but in {cls}: "
                 f"{r.get('error', {}).get('msg', '')[:200]} (specification: {spec}/{c['reason']})")
     if st == "invalid":
-        return (f"invalid:{c['reason']}:{last_op(c)}",
+        return (f"invalid:{c['reason']}:{op_at(c, c['at'])}:{c['origin']}",
                 f"body for {where} compiles to an INVALID HUGR: {r.get('error', {}).get('msg', '')[:300]} "
                 f"(specification: {spec}/{c['reason']})")
     if spec == "error" and st == "ok":
-        return (f"accepted:{c['reason']}:{last_op(c)}:{c['origin']}",
-                f"ownership violation accepted: specification says error ({c['reason']}) for {where}, "
-                f"/repo compiled it to a HUGR")
+        return (f"unenforced:{c['reason']}:{op_at(c, c['at'])}:{c['origin']}",
+                f"ownership violation accepted: specification says {c['reason']} error {say(c['at'])} for {where}; "
+                f"/repo compiled the body to a HUGR")
     if spec == "error" and st == "rejected" and c["at"] != r.get("impl_at"):
-        say = lambda k: f"raised by statement {k} of the body" if k else "reported when the function returns"
-        return (f"misplaced:{c['reason']}:{last_op(c)}:{c['origin']}",
-                f"ownership error for {where} not raised where the specification says: specification: "
-                f"{c['reason']} error {say(c['at'])}; /repo: {r.get('impl_reason')} error {say(r.get('impl_at'))} "
-                f"({r.get('error', {}).get('class')})")
+        ia = r.get("impl_at") or 0
+        later = c["at"] > 0 and (ia == 0 or ia > c["at"])
+        if later:
+            return (f"unenforced:{c['reason']}:{op_at(c, c['at'])}:{c['origin']}",
+                    f"ownership error for {where} not raised where the specification says: specification: "
+                    f"{c['reason']} error {say(c['at'])}; /repo lets that statement pass and has a "
+                    f"{r.get('impl_reason')} error {say(ia)} ({r.get('error', {}).get('class')})")
+        return (f"spurious:{r.get('impl_reason')}:{op_at(c, ia)}:{c['origin']}",
+                f"ownership error for {where} raised too early: /repo: {r.get('impl_reason')} error {say(ia)} "
+                f"({r.get('error', {}).get('class')}); specification: {c['reason']} error {say(c['at'])}")
     if spec == "ok" and st == "rejected":
-        return (f"rejected:{r.get('impl_reason')}:{last_op(c)}:{c['origin']}",
-                f"body without ownership violation rejected for {where}: {r.get('error', {}).get('class')} "
+        ia = r.get("impl_at") or 0
+        return (f"spurious:{r.get('impl_reason')}:{op_at(c, ia)}:{c['origin']}",
+                f"body without ownership violation rejected for {where}: {r.get('error', {}).get('class')} {say(ia)}: "
                 f"{(r.get('error', {}).get('msg') or r.get('error', {}).get('title') or '')[:200]}")
     return None
-
-
-def last_op(c):
-    return c["prog"][-1]["op"] if c["prog"] else "finish"
 
 
 def evaluate(ctx, cases, results):
@@ -150,7 +160,7 @@ def evaluate(ctx, cases, results):
 
 def report(ctx, viol):
     for key, cs in sorted(viol.items()):
-        first = min(cs, key=lambda x: (len(x["case"]["prog"]), len(x["result"]["src"])))
+        first = min(cs, key=lambda x: (x["result"]["status"] != "ok", len(x["case"]["prog"]), len(x["result"]["src"])))
         ctx.violation(key, f"{key}: {len(cs)} bodies; {first['what']}; smallest:\n{first['result']['src']}",
                       {"case": first["case"], "src": first["result"]["src"], "count": len(cs)})
 
@@ -165,7 +175,7 @@ def run(ctx):
     n_exh = len(cases)
     n_sim = 0
     if not ctx.quick and not os.environ.get("VERIF_C22_CFG"):
-        sim = emit_cases(ctx, "ComptimeOwn_Sim.cfg", simulate=30000, depth=8)
+        sim = emit_cases(ctx, "ComptimeOwn_Sim.cfg", simulate=1500, depth=8)  # num is per worker
         n_sim = len(sim)
         cases = cases + sim
     cases = dedupe(cases)
@@ -268,20 +278,17 @@ def selftest(ctx):
         if judge(sample[ok_i], r2) is None:
             raise lib.Machinery(f"selftest: observation corrupted to {st} was accepted")
     # 3. replay a body with one statement dropped against the original verdict: a dropped consuming `use` of a
-    #    leak-free body must be flagged
-    done = False
-    for i, c in enumerate(sample):
-        if c["verdict"] == "ok" and c["origin"] == "owned" and c["ty"] == "Q" and any(s["op"] == "use" for s in c["prog"]):
-            c2 = dict(c, prog=[s for s in c["prog"] if s["op"] != "use"])
-            import own_lib
+    #    leak-free body must be flagged, the unmodified body must not
+    import own_lib
 
-            r2 = own_lib.run_case(c2)
-            if judge(c, r2) is None:
-                raise lib.Machinery("selftest: a body with its consuming statement dropped still matched verdict ok")
-            done = True
-            break
-    if not done:
+    c = next((c for c in cases if c["verdict"] == "ok" and c["origin"] == "owned" and c["ty"] == "Q"
+              and [s["op"] for s in c["prog"]] == ["use"] and c["ret"] == [0]), None)
+    if c is None:
         raise lib.Machinery("selftest: no suitable case for the dropped-statement test")
+    if judge(c, own_lib.run_case(c)) is not None:
+        raise lib.Machinery("selftest: the reference body for the dropped-statement test is itself flagged")
+    if judge(c, own_lib.run_case(dict(c, prog=[]))) is None:
+        raise lib.Machinery("selftest: a body with its consuming statement dropped still matched verdict ok")
 
 
 if __name__ == "__main__":
